@@ -19,8 +19,20 @@ MUTS = (
      ["unit", "W", 0, ".1IN"], ["unit", "C", 0, ".1IN"], ["unit", "W", 1, "FT"], ["unit", "C", 0, "ft"], ["unit", "P", 0, "K/M3"],
      ["empty", "P", 0], ["empty", "W", 4], ["empty", "W", 5], ["empty", "C", 1],
      ["long_value", "W", 4], ["long_value", "P", 1], ["long_descr", "C", 1], ["long_descr", "W", 0], ["long_mnemonic", "P", 0],
-     ["long_mnemonic", "C", 1], ["case", "W", 4], ["case", "C", 1], ["case", "W", 3]]
+     ["long_mnemonic", "C", 1], ["case", "W", 4], ["case", "C", 1], ["case", "W", 3],
+     ["empty_long_unit", "P", 0], ["empty_long_unit", "W", 4], ["empty_long_unit", "P", 1], ["dup_extra", "V", 0], ["dup_extra", "P", 0],
+     ["unit", "P", 0, "[[[m]]]"], ["unit", "P", 0, "[m]"], ["numunit_empty", "P", 0], ["unit", "W", 2, ".1IN"]]
 )
+
+TEXT_CURVE_INPUTS = [
+    ("textcurve:hyphen", "~Version\nVERS. 2.0 : v\nWRAP. NO : w\n~Well\nSTRT.M 1.0 : start\nSTOP.M 8.0 : stop\nSTEP.M 1.0 : step\n"
+     "NULL. -999.25 : null\n~Curve\nDEPT.M : depth\nLITH. : lithology\nGR.GAPI : gamma\nZONE. : zone name\nRHOB.G/C3 : density\n~ASCII\n"
+     + "".join("%d.0 %s %d.5 %s %d.25\n" % (i, ["SANDSTONE-SHALE", "LIMESTONE", "SHALE-SILT-SAND", "DOLOMITE-X"][i % 4], 10 * i,
+                                              ["UPPER-A", "LOWER-B-2"][i % 2], i) for i in range(1, 9))),
+    ("textcurve:wide", "~Version\nVERS. 2.0 : v\nWRAP. NO : w\n~Well\nSTRT.M 1.0 : start\nSTOP.M 3.0 : stop\nSTEP.M 1.0 : step\n"
+     "NULL. -999.25 : null\n~Curve\nDEPT.M : depth\n" + "".join("C%d. : c\n" % j for j in range(1, 9)) + "TXT. : text\n~ASCII\n"
+     + "".join("%d.0 " % i + " ".join("%d.125" % (100 * j + i) for j in range(1, 9)) + " WELL-SITE-%d\n" % i for i in range(1, 4))),
+]
 
 
 def generated(tier="quick"):
@@ -45,7 +57,7 @@ def generated(tier="quick"):
 
 
 def all_inputs(tier="quick"):
-    return generated(tier) + corpus(600 if tier == "quick" else None)
+    return generated(tier) + TEXT_CURVE_INPUTS + corpus(600 if tier == "quick" else None)
 
 
 def well_version_family():
@@ -73,4 +85,18 @@ def well_version_family():
             lines += ["~Curve", "DEPT.M : depth", "GR.GAPI : gamma", "~Parameter", "P1.U 3.5 : a parameter",
                       "~ASCII", "1.0 10.5", "2.0 -999.25", "3.0 30.5"]
             out.append(("wellver:%s:%d" % (ver, k), "\n".join(lines) + "\n"))
+    # the same sections with empty descriptions and long values (each item in turn the widest of its section)
+    for ver in ("1.2", "2.0"):
+        for long_item in ("STRT", "NULL", "COMP", None):
+            lines = ["~Version", "VERS. %s :" % ver, "WRAP. NO :", "~Well"]
+            for mn, un, va in (("STRT", "M", "1670.0"), ("STOP", "M", "1660.0"), ("STEP", "M", "-0.125"), ("NULL", "", "-999.25"),
+                               ("COMP", "", "ACME"), ("WELL", "", "W-1")):
+                if mn == long_item:
+                    va = va + "0000000" if mn in ("STRT", "NULL") else "A VERY LONG COMPANY NAME INDEED"
+                if ver == "1.2" and mn in ("COMP", "WELL"):
+                    lines.append("%s.%s  : %s" % (mn, un, va))
+                else:
+                    lines.append("%s.%s %s :" % (mn, un, va))
+            lines += ["~Curve", "DEPT.M :", "GR.GAPI :", "~ASCII", "1670.0 10.5", "1665.0 -999.25", "1660.0 30.5"]
+            out.append(("wellver-nodescr:%s:%s" % (ver, long_item), "\n".join(lines) + "\n"))
     return out
